@@ -1,4 +1,429 @@
-(* Proofs about the block request window model. (to be completed) *)
+(* Proofs about the block request window model (property C13).
+   1. The executable model of internal/state/requests.go (model/Requests.v) refines the reference
+      queue (model/RequestsSpec.v): equal observations on every operation sequence.
+   2. Invariants of the reference queue: window bound, byte accounting, pause, unrequested blocks
+      ignored, FIFO processing, no duplicates / chain order, clear-after. *)
 From V.lib Require Import Base.
 From V.model Require Import Requests RequestsSpec.
 From V.gen Require Import Consts.
+From Coq Require Import Sorted.
+
+Local Open Scope Z_scope.
+
+(* ---------------------------------------------------------------------------------------- *)
+(* Helper lemmas on lists                                                                    *)
+
+Definition lift (l : list Z) : list (Z * option Z) := map (fun h => (h, None)) l.
+
+Lemma sizes_cons x l :
+  sizes (x :: l) = match snd x with Some sz => sz + sizes l | None => sizes l end.
+Proof. reflexivity. Qed.
+
+Lemma sizes_app l1 l2 : sizes (l1 ++ l2) = sizes l1 + sizes l2.
+Proof.
+  induction l1 as [|x l1 IH]; [reflexivity|].
+  rewrite <- app_comm_cons, !sizes_cons, IH. destruct (snd x); lia.
+Qed.
+
+Lemma sizes_lift tr : sizes (lift tr) = 0.
+Proof. induction tr as [|h tr IH]; [reflexivity|]. unfold lift in *. cbn [map]. rewrite sizes_cons. exact IH. Qed.
+
+Lemma sizes_all_none l : Forall (fun x : Z * option Z => snd x = None) l -> sizes l = 0.
+Proof.
+  induction 1 as [|x l Hx _ IH]; [reflexivity|]. rewrite sizes_cons, Hx. exact IH.
+Qed.
+
+Lemma sizes_take_drop n l : sizes l = sizes (take n l) + sizes (drop n l).
+Proof. rewrite <- sizes_app, take_drop. reflexivity. Qed.
+
+Lemma length_lift tr : length (lift tr) = length tr.
+Proof. unfold lift. apply map_length. Qed.
+
+Lemma lift_app a b : lift (a ++ b) = lift a ++ lift b.
+Proof. unfold lift. apply map_app. Qed.
+
+Lemma lift_take n l : lift (take n l) = take n (lift l).
+Proof. unfold lift. symmetry. apply firstn_map. Qed.
+
+Lemma last_lift tr : last (lift tr) = option_map (fun h => (h, @None Z)) (last tr).
+Proof.
+  induction tr as [|h tr IH]; [reflexivity|].
+  unfold lift in *. cbn [map]. rewrite !last_cons, IH. destruct (last tr); reflexivity.
+Qed.
+
+Lemma lookup_lift tr (i : nat) : lift tr !! i = option_map (fun h => (h, @None Z)) (tr !! i).
+Proof.
+  revert i. induction tr as [|h tr IH]; intros [|i]; try reflexivity.
+  unfold lift in *. cbn [map]. cbn. apply IH.
+Qed.
+
+Lemma existsb_lift h tr :
+  existsb (fun x : Z * option Z => fst x =? h) (lift tr) = existsb (fun x => x =? h) tr.
+Proof.
+  induction tr as [|x tr IH]; [reflexivity|].
+  unfold lift in *. cbn [map existsb fst]. rewrite IH. reflexivity.
+Qed.
+
+Lemma zlen_app {A} (a b : list A) : zlen (a ++ b) = zlen a + zlen b.
+Proof. unfold zlen. rewrite app_length. lia. Qed.
+
+Lemma zlen_lift tr : zlen (lift tr) = zlen tr.
+Proof. unfold zlen. rewrite length_lift. reflexivity. Qed.
+
+Lemma zlen_nonneg {A} (l : list A) : 0 <= zlen l.
+Proof. unfold zlen. lia. Qed.
+
+(* find_idx *)
+Lemma find_idx_shift {A} (f : A -> bool) l (n : nat) :
+  find_idx f l n = option_map (fun i => (n + i)%nat) (find_idx f l 0).
+Proof.
+  revert n. induction l as [|x l IH]; intros n; [reflexivity|].
+  cbn [find_idx]. destruct (f x).
+  - cbn. f_equal. lia.
+  - rewrite (IH (S n)), (IH 1%nat). destruct (find_idx f l 0); cbn; [f_equal; lia|reflexivity].
+Qed.
+
+Lemma find_idx_app {A} (f : A -> bool) l1 l2 (n : nat) :
+  find_idx f (l1 ++ l2) n =
+  match find_idx f l1 n with
+  | Some i => Some i
+  | None => find_idx f l2 (n + length l1)%nat
+  end.
+Proof.
+  revert n. induction l1 as [|x l1 IH]; intros n.
+  - cbn. rewrite Nat.add_0_r. reflexivity.
+  - cbn [app find_idx length]. destruct (f x); [reflexivity|].
+    rewrite IH. replace (S n + length l1)%nat with (n + S (length l1))%nat by lia. reflexivity.
+Qed.
+
+Lemma find_idx_bound {A} (f : A -> bool) l (n i : nat) :
+  find_idx f l n = Some i -> (n <= i < n + length l)%nat.
+Proof.
+  revert n. induction l as [|x l IH]; intros n; cbn [find_idx length]; [discriminate|].
+  destruct (f x).
+  - intros [= <-]. lia.
+  - intros H. apply IH in H. lia.
+Qed.
+
+Lemma find_idx_lift h tr (n : nat) :
+  find_idx (fun x : Z * option Z => fst x =? h) (lift tr) n = find_idx (fun x => x =? h) tr n.
+Proof.
+  revert n. induction tr as [|x tr IH]; intros n; [reflexivity|].
+  unfold lift in *. cbn [map find_idx fst]. rewrite IH. reflexivity.
+Qed.
+
+(* fill *)
+Lemma fill_Some l h size l' d :
+  fill l h size = Some (l', d) ->
+  length l' = length l /\ map fst l' = map fst l /\ sizes l' = sizes l + d.
+Proof.
+  revert l' d. induction l as [|[x b] l IH]; intros l' d; cbn [fill]; [discriminate|].
+  destruct (x =? h) eqn:E.
+  - intros [= <- <-]. cbn [length map fst]. rewrite !sizes_cons. cbn [snd].
+    repeat split. destruct b; lia.
+  - destruct (fill l h size) as [[l2 d2]|]; [|discriminate].
+    intros [= <- <-]. destruct (IH l2 d2 eq_refl) as (Hl & Hm & Hs).
+    cbn [length map fst]. rewrite !sizes_cons, Hl, Hm, Hs. cbn [snd].
+    repeat split. destruct b; lia.
+Qed.
+
+Lemma fill_None l h size : fill l h size = None <-> ~ In h (map fst l).
+Proof.
+  induction l as [|[x b] l IH]; cbn [fill map fst In].
+  - tauto.
+  - destruct (x =? h) eqn:E.
+    + apply Z.eqb_eq in E. split; [discriminate|]. intros H. exfalso. apply H. left. exact E.
+    + apply Z.eqb_neq in E. destruct (fill l h size) as [[l2 d2]|].
+      * split; [discriminate|]. intros H. exfalso.
+        assert (Hn : ~ In h (map fst l)) by (intros Hin; apply H; right; exact Hin).
+        apply IH in Hn. discriminate.
+      * split; [|reflexivity]. intros _ [H|H]; [contradiction|]. apply IH in H; [exact H|reflexivity].
+Qed.
+
+(* ---------------------------------------------------------------------------------------- *)
+(* 1. Refinement: model -> reference queue                                                    *)
+
+Definition abs (s : rstate) : qstate :=
+  QState (requested s ++ lift (to_request s)) (length (requested s)) (last_saved s).
+
+Definition rinv (s : rstate) : Prop := pending s = sizes (requested s).
+
+Definition qdig (q : qstate) : list Z :=
+  [Z.of_nat (nreq q); zlen (queue q) - Z.of_nat (nreq q); buffered q].
+
+Lemma qdig_abs s : rinv s -> qdig (abs s) = digest s.
+Proof.
+  unfold rinv, qdig, digest, abs, buffered. cbn [nreq queue]. intros ->.
+  rewrite zlen_app, zlen_lift, sizes_app, sizes_lift. unfold zlen.
+  repeat (f_equal; try lia).
+Qed.
+
+Lemma fin_eq (Q1 : qstate) (S1 : rstate) (pre : list Z) :
+  Q1 = abs S1 -> rinv S1 ->
+  (Q1, pre ++ [Z.of_nat (nreq Q1); zlen (queue Q1) - Z.of_nat (nreq Q1); buffered Q1])
+  = (abs S1, pre ++ digest S1).
+Proof. intros -> H. fold (qdig (abs S1)). rewrite (qdig_abs _ H). reflexivity. Qed.
+
+Section Refine.
+Variable MAXR LIM : Z.
+
+Lemma buffered_abs s : buffered (abs s) = sizes (requested s).
+Proof. unfold buffered, abs. cbn [queue]. rewrite sizes_app, sizes_lift. lia. Qed.
+
+Lemma q_over_abs s : rinv s -> q_over MAXR LIM (abs s) = over_threshold MAXR LIM s.
+Proof.
+  intros H. unfold q_over, over_threshold. rewrite buffered_abs, <- H.
+  unfold abs, zlen. cbn [nreq]. reflexivity.
+Qed.
+
+Lemma q_tail_abs s : q_tail (abs s) = last_hash s.
+Proof.
+  unfold q_tail, last_hash, abs. cbn [queue q_last_saved].
+  rewrite last_app, last_lift. destruct (last (to_request s)); cbn; [reflexivity|].
+  destruct (last (requested s)) as [[l b]|]; reflexivity.
+Qed.
+
+Lemma take_abs s : take (nreq (abs s)) (queue (abs s)) = requested s.
+Proof. unfold abs. cbn [nreq queue]. apply take_app. Qed.
+
+Lemma drop_abs s : drop (nreq (abs s)) (queue (abs s)) = lift (to_request s).
+Proof. unfold abs. cbn [nreq queue]. apply drop_app. Qed.
+
+Definition refines_at (s : rstate) (o : op) : Prop :=
+  rinv s ->
+  rinv (fst (step MAXR LIM s o)) /\
+  q_step MAXR LIM (abs s) o = (abs (fst (step MAXR LIM s o)), snd (step MAXR LIM s o)).
+
+Lemma queue_abs s : queue (abs s) = requested s ++ lift (to_request s).
+Proof. reflexivity. Qed.
+Lemma nreq_abs s : nreq (abs s) = length (requested s).
+Proof. reflexivity. Qed.
+Lemma q_last_saved_abs s : q_last_saved (abs s) = last_saved s.
+Proof. reflexivity. Qed.
+
+Lemma nreq_len_abs s :
+  (nreq (abs s) =? length (queue (abs s)))%nat = match to_request s with [] => true | _ => false end.
+Proof.
+  rewrite nreq_abs, queue_abs, app_length, length_lift.
+  destruct (to_request s); cbn [length].
+  - rewrite Nat.add_0_r. apply Nat.eqb_refl.
+  - apply Nat.eqb_neq. lia.
+Qed.
+
+Lemma refine_announce s prev h : refines_at s (OAnnounce prev h).
+Proof.
+  intros Hinv. unfold step, q_step. cbv beta zeta.
+  rewrite q_tail_abs, (q_over_abs _ Hinv), nreq_len_abs.
+  unfold add_block_request, last_hash.
+  destruct (last (to_request s)) as [l|] eqn:Hl.
+  - destruct (negb (l =? prev)); cbn [fst snd].
+    + split; [exact Hinv|]. apply (fin_eq _ _ [ERR]); [reflexivity|exact Hinv].
+    + assert (Hne : match to_request s with [] => true | _ :: _ => false end = false).
+      { revert Hl. destruct (to_request s); [discriminate|reflexivity]. }
+      rewrite Hne. cbn [andb].
+      split; [exact Hinv|]. apply (fin_eq _ _ [OK; 0]); [|exact Hinv].
+      unfold abs. cbn [requested to_request last_saved queue nreq q_last_saved].
+      rewrite lift_app, app_assoc. reflexivity.
+  - apply last_None in Hl. rewrite Hl.
+    assert (Hlk : negb (match last (requested s) with
+                        | Some (l, _) => l =? prev
+                        | None => last_saved s =? prev
+                        end)
+                  = negb (match last (requested s) with
+                          | Some (l, _) => l
+                          | None => last_saved s
+                          end =? prev))
+      by (destruct (last (requested s)) as [[? ?]|]; reflexivity).
+    rewrite Hlk. clear Hlk.
+    destruct (negb _); cbn [fst snd].
+    + split; [exact Hinv|]. apply (fin_eq _ _ [ERR]); [reflexivity|exact Hinv].
+    + destruct (over_threshold MAXR LIM s); cbn [andb negb fst snd].
+      * split; [exact Hinv|]. apply (fin_eq _ _ [OK; 0]); [|exact Hinv].
+        unfold abs. cbn [requested to_request last_saved queue nreq q_last_saved].
+        rewrite Hl. cbn. rewrite app_nil_r. reflexivity.
+      * assert (Hinv1 : rinv (RState (requested s ++ [(h, None)]) (to_request s) (pending s) (last_saved s))).
+        { unfold rinv in *. cbn [pending requested]. rewrite sizes_app, Hinv. cbn. lia. }
+        split; [exact Hinv1|]. apply (fin_eq _ _ [OK; 1]); [|exact Hinv1].
+        unfold abs. cbn [requested to_request last_saved queue nreq q_last_saved].
+        rewrite Hl, app_length. cbn. rewrite !app_nil_r. f_equal. lia.
+Qed.
+
+Lemma refine_deliver s h size : refines_at s (ODeliver h size).
+Proof.
+  intros Hinv. unfold step, q_step. cbv beta zeta.
+  rewrite take_abs, drop_abs. unfold add_block.
+  destruct (fill (requested s) h size) as [[l d]|] eqn:Hf; cbn [fst snd].
+  - destruct (fill_Some _ _ _ _ _ Hf) as (Hlen & Hmap & Hsz).
+    assert (Hinv1 : rinv (RState l (to_request s) (pending s + d) (last_saved s))).
+    { unfold rinv in *. cbn [pending requested]. lia. }
+    split; [exact Hinv1|]. apply (fin_eq _ _ [OK; 1]); [|exact Hinv1].
+    unfold abs. cbn [requested to_request last_saved nreq q_last_saved]. rewrite Hlen. reflexivity.
+  - split; [exact Hinv|]. apply (fin_eq _ _ [OK; 0]); [reflexivity|exact Hinv].
+Qed.
+
+Lemma refine_pop s : refines_at s OPop.
+Proof.
+  intros Hinv. unfold step, q_step, next_block. cbv beta zeta.
+  fold (qdig (abs s)). rewrite queue_abs, nreq_abs.
+  destruct (requested s) as [|[x [sz|]] rq] eqn:Erq; cbn [app length fst snd].
+  - split; [exact Hinv|].
+    assert (Hg : (abs s, OK :: 0 :: qdig (abs s)) = (abs s, OK :: 0 :: digest s))
+      by (apply (fin_eq _ _ [OK; 0]); [reflexivity|exact Hinv]).
+    destruct (lift (to_request s)) as [|[? [?|]] ?]; exact Hg.
+  - assert (Hinv1 : rinv (RState rq (to_request s) (pending s - sz) x)).
+    { unfold rinv in *. cbn [pending requested]. rewrite Erq, sizes_cons in Hinv. cbn [snd] in Hinv. lia. }
+    split; [exact Hinv1|]. apply (fin_eq _ _ [OK; 1; x]); [reflexivity|exact Hinv1].
+  - split; [exact Hinv|]. apply (fin_eq _ _ [OK; 0]); [reflexivity|exact Hinv].
+Qed.
+
+Lemma refine_next s : refines_at s ONext.
+Proof.
+  intros Hinv. unfold step, q_step, get_next. cbv beta zeta.
+  rewrite drop_abs, (q_over_abs _ Hinv).
+  destruct (to_request s) as [|t tr] eqn:Etr; cbn [lift map fst snd].
+  - split; [exact Hinv|]. apply (fin_eq _ _ [OK; 0]); [reflexivity|exact Hinv].
+  - destruct (over_threshold MAXR LIM s); cbn [fst snd].
+    + split; [exact Hinv|]. apply (fin_eq _ _ [OK; 0]); [reflexivity|exact Hinv].
+    + assert (Hinv1 : rinv (RState (requested s ++ [(t, None)]) tr (pending s) (last_saved s))).
+      { unfold rinv in *. cbn [pending requested]. rewrite sizes_app, Hinv. cbn. lia. }
+      split; [exact Hinv1|].
+      replace (zlen (requested s) + 1) with (Z.of_nat (S (nreq (abs s))))
+        by (rewrite nreq_abs; unfold zlen; lia).
+      apply (fin_eq _ _ [OK; 1; t; Z.of_nat (S (nreq (abs s)))]); [|exact Hinv1].
+      unfold abs. cbn [requested to_request last_saved queue nreq q_last_saved].
+      rewrite Etr, app_length, <- app_assoc. cbn. f_equal. lia.
+Qed.
+
+Lemma refine_clear_all s : refines_at s OClearAll.
+Proof.
+  intros Hinv. unfold step, q_step, clear_all. cbv beta zeta. cbn [fst snd].
+  assert (Hinv1 : rinv (RState [] [] 0 (last_saved s))) by reflexivity.
+  split; [exact Hinv1|]. apply (fin_eq _ _ [OK]); [reflexivity|exact Hinv1].
+Qed.
+
+Lemma refine_reset s : refines_at s OReset.
+Proof.
+  intros Hinv. unfold step, q_step, reset. cbv beta zeta. cbn [fst snd].
+  assert (Hinv1 : rinv (RState [] [] 0 (last_saved s))) by reflexivity.
+  split; [exact Hinv1|]. apply (fin_eq _ _ [OK]); [reflexivity|exact Hinv1].
+Qed.
+
+Lemma refine_clear_after s h : refines_at s (OClearAfter h).
+Proof.
+  intros Hinv. unfold step, q_step, clear_after. cbv beta zeta.
+  fold (qdig (abs s)). rewrite queue_abs, nreq_abs, find_idx_app, find_idx_lift.
+  destruct (find_idx (fun x : Z * option Z => fst x =? h) (requested s) 0) as [i|] eqn:Hi.
+  - apply find_idx_bound in Hi.
+    assert (Hinv1 : rinv (RState (take (S i) (requested s)) []
+                                 (pending s - sizes (drop (S i) (requested s))) (last_saved s))).
+    { unfold rinv in *. cbn [pending requested]. rewrite (sizes_take_drop (S i) (requested s)) in Hinv. lia. }
+    cbn [fst snd]. split; [exact Hinv1|]. apply (fin_eq _ _ [OK]); [|exact Hinv1].
+    unfold abs. cbn [requested to_request last_saved queue nreq q_last_saved].
+    rewrite take_app_le by lia. rewrite take_length. cbn [lift map]. rewrite app_nil_r.
+    f_equal. lia.
+  - cbn [Nat.add]. rewrite (find_idx_shift _ (to_request s) (length (requested s))).
+    destruct (find_idx (fun x => x =? h) (to_request s) 0) as [j|] eqn:Hj; cbn [option_map fst snd].
+    + assert (Hinv1 : rinv (RState (requested s) (take (S j) (to_request s)) (pending s) (last_saved s)))
+        by exact Hinv.
+      split; [exact Hinv1|]. apply (fin_eq _ _ [OK]); [|exact Hinv1].
+      unfold abs. cbn [requested to_request last_saved queue nreq q_last_saved].
+      rewrite take_app_ge by lia.
+      replace (S (length (requested s) + j) - length (requested s))%nat with (S j) by lia.
+      rewrite lift_take. f_equal. lia.
+    + split; [exact Hinv|]. apply (fin_eq _ _ [OK]); [reflexivity|exact Hinv].
+Qed.
+
+Lemma refine_set_last s h : refines_at s (OSetLast h).
+Proof.
+  intros Hinv. unfold step, q_step, set_last_hash. cbv beta zeta. cbn [fst snd].
+  assert (Hinv1 : rinv (RState (requested s) (to_request s) (pending s) h)) by exact Hinv.
+  split; [exact Hinv1|]. apply (fin_eq _ _ [OK]); [reflexivity|exact Hinv1].
+Qed.
+
+Lemma refine_last_hash s : refines_at s OLastHash.
+Proof.
+  intros Hinv. unfold step, q_step. cbv beta zeta. cbn [fst snd].
+  rewrite q_tail_abs.
+  split; [exact Hinv|]. apply (fin_eq _ _ [OK; last_hash s]); [reflexivity|exact Hinv].
+Qed.
+
+Lemma refine_req_hash s d : refines_at s (OReqHash d).
+Proof.
+  intros Hinv. unfold step, q_step. cbv beta zeta. cbn [fst snd].
+  split; [exact Hinv|]. f_equal.
+  rewrite drop_abs, take_abs, zlen_lift.
+  fold (qdig (abs s)). rewrite (qdig_abs _ Hinv).
+  unfold block_request_hash, index, res_bind.
+  pose proof (zlen_nonneg (to_request s)) as Hz1.
+  pose proof (zlen_nonneg (requested s)) as Hz2.
+  destruct (d <? 0) eqn:Ed.
+  - apply Z.ltb_lt in Ed.
+    replace (zlen (to_request s) >? d) with true by (symmetry; apply Z.gtb_lt; lia).
+    replace (zlen (to_request s) - d - 1 <? 0) with false by (symmetry; apply Z.ltb_ge; lia).
+    rewrite (lookup_ge_None_2 (to_request s)); [reflexivity|].
+    unfold zlen in *. lia.
+  - apply Z.ltb_ge in Ed.
+    destruct (zlen (to_request s) >? d) eqn:E1.
+    + apply Z.gtb_lt in E1.
+      replace (zlen (to_request s) - d - 1 <? 0) with false by (symmetry; apply Z.ltb_ge; lia).
+      rewrite lookup_lift.
+      destruct (to_request s !! Z.to_nat (zlen (to_request s) - d - 1)); reflexivity.
+    + destruct (zlen (requested s) >? d) eqn:E2; [|reflexivity].
+      apply Z.gtb_lt in E2.
+      replace (zlen (requested s) - d - 1 <? 0) with false by (symmetry; apply Z.ltb_ge; lia).
+      destruct (requested s !! Z.to_nat (zlen (requested s) - d - 1)) as [[hh b]|]; reflexivity.
+Qed.
+
+Lemma refine_is_requested s h : refines_at s (OIsRequested h).
+Proof.
+  intros Hinv. unfold step, q_step. cbv beta zeta. cbn [fst snd].
+  rewrite take_abs.
+  split; [exact Hinv|].
+  apply (fin_eq _ _ [OK; b2z (existsb (fun x : Z * option Z => fst x =? h) (requested s))]);
+    [reflexivity|exact Hinv].
+Qed.
+
+Lemma refine_is_to_be_requested s h : refines_at s (OIsToBeRequested h).
+Proof.
+  intros Hinv. unfold step, q_step. cbv beta zeta. cbn [fst snd].
+  rewrite drop_abs, existsb_lift.
+  split; [exact Hinv|].
+  apply (fin_eq _ _ [OK; b2z (existsb (fun x => x =? h) (to_request s))]);
+    [reflexivity|exact Hinv].
+Qed.
+
+Lemma step_refine s o : refines_at s o.
+Proof.
+  destruct o.
+  - apply refine_announce.
+  - apply refine_deliver.
+  - apply refine_pop.
+  - apply refine_next.
+  - apply refine_clear_all.
+  - apply refine_clear_after.
+  - apply refine_set_last.
+  - apply refine_reset.
+  - apply refine_last_hash.
+  - apply refine_req_hash.
+  - apply refine_is_requested.
+  - apply refine_is_to_be_requested.
+Qed.
+
+Lemma run_from_refine ops :
+  forall s, rinv s -> run_from MAXR LIM s ops = q_run_from MAXR LIM (abs s) ops.
+Proof.
+  induction ops as [|o ops IH]; intros s Hinv; [reflexivity|].
+  cbn [run_from q_run_from].
+  destruct (step_refine s o Hinv) as [H1 H2]. rewrite H2.
+  destruct (step MAXR LIM s o) as [s1 ob]. cbn [fst snd] in *.
+  f_equal. apply IH. exact H1.
+Qed.
+
+End Refine.
+
+Theorem requests_refine :
+  forall (MAXR LIM : Z) (ops : list op), run MAXR LIM ops = q_run MAXR LIM ops.
+Proof.
+  intros MAXR LIM ops. unfold run, q_run.
+  rewrite run_from_refine by reflexivity. reflexivity.
+Qed.
